@@ -49,7 +49,7 @@ Value& EXPExpression::value(Context & ctx) const
     break;
   case Type::INTEGER:
     if (val.isNull())
-      return val;
+      break;
     v = Value(Numeric(std::exp(*val.integer())));
     break;
   case Type::NUMERIC:
